@@ -20,7 +20,8 @@ CONSTANTS MaxTips,      \* largest number of tips of an initial tree
           Pats,         \* decoration patterns used (subset of 1..8)
           MaxDepth,     \* number of operations per behaviour
           OpsOn,        \* names of the operations explored
-          Emit          \* print cases for replay
+          Emit,         \* print cases for replay
+          Chains        \* also start from trees with a chain of two single-child nodes above one node
 
 VARIABLES m,        \* the abstract tree
           depth,    \* operations applied so far
@@ -32,7 +33,16 @@ vars == <<m, depth, mfail>>
 (* that a parent has a larger number than its inner children (acyclic by    *)
 (* construction), every inner node with at least two children.              *)
 
+\* t with two single-child inner nodes inserted above the non-root node n (what re-rooting a rooted tree leaves, twice)
+WithChain(t, n) ==
+  LET a  == FreshId(t)
+      b  == a + 1
+      t1 == AddNode(t, a, t.par[n], "", 65536, NIL, NIL)
+      t2 == AddNode(t1, b, a, "", 131072, NIL, NIL)
+  IN  SetBr(t2, n, b, t.len[n], t.sup[n], t.pv[n])
+
 InitTrees == TreesOf(MinTips, MaxTips, Pats)
+             \cup (IF Chains THEN UNION {{WithChain(t, n) : n \in t.nodes \ {t.root}} : t \in TreesOf(MinTips, MaxTips, Pats)} ELSE {})
 
 -----------------------------------------------------------------------------
 (* all calls enabled on a tree, with all argument choices                   *)
@@ -59,7 +69,7 @@ OpsOf(t) ==
         THEN {E("RerootOutGroup", [names |-> NamesSeq(S), strict |-> st, remove |-> rm]) :
                 S \in (SUBSET names \ {{}}) \cup {{CHOOSE x \in names : TRUE, "zz"}}, st \in BOOLEAN, rm \in BOOLEAN}
         ELSE {})
-  \cup (IF on("RemoveTips") /\ SingleNodes(V) = {}
+  \cup (IF on("RemoveTips")
         THEN {E("RemoveTips", [names |-> NamesSeq(S), revert |-> rv]) :
                 S \in {S \in SUBSET names : (Cardinality(S) >= 1 /\ nt - Cardinality(S) >= 3)}
                       \cup {{CHOOSE x \in names : TRUE, "zz"}}, rv \in {FALSE}}
